@@ -72,7 +72,8 @@ def run(prop, tier, seed, eps, res, nshards=12, timeout=3600):
             json.dump({"episodes": shards[ix]}, f)
         p = core.run_bin("jsonwalk", [jp, tp], timeout=timeout)
         stats = json.loads(p.stdout.strip().splitlines()[-1])
-        tot = core.validate_file("Trace_Json", tp, prop, tier, seed, timeout=timeout, tagbase=f"{prop}{ix}", max_rejects=6)
+        tot = core.validate_file("Trace_Json", tp, prop, tier, seed, timeout=timeout, tagbase=f"{prop}{ix}", max_rejects=6,
+                                 extra_env={"JVIEW": prop if prop in ("C06", "C07") else "all"})
         return stats, tot, tp
 
     outs = core.parallel(go, list(range(len(shards))), workers=nshards)
@@ -163,24 +164,35 @@ def check(prop, tier, seed):
                        "cross-checked against Python jsonschema; distinct = distinct schemas")
     res.assumptions += ["TLC", "harness jsonwalk driver", "Python jsonschema only as a cross-check of the specification",
                         "patterns without a supplied AST and formats other than date/time/date-time/ipv4/uuid are not asserted"]
-    # negative control: an Output that breaks the schema must be rejected
+    # negative control under the property's own view.  C06: an Output that is not well-formed must be rejected;
+    # C07: a valid canonical instance the engine admitted, recorded as refused, must be rejected
     wd = os.path.join(core.WORK, f"{prop}-{tier}")
     lines = core.read_lines(os.path.join(wd, "trace0.ndjson"))
-    bad = None
+    env = {"JVIEW": prop}
+    done = False
+    tried = 0
     for i, ln in enumerate(lines):
-        if '"ev":"Output"' in ln[:30]:
-            s, e = core.episode_bounds(lines, i)
+        if prop == "C06" and '"ev":"Output"' in ln[:30]:
             ev = json.loads(ln)
             ev["b"] = ev["b"] + [93]      # a stray ']' : not well-formed
-            bad = lines[s:i] + [json.dumps(ev)]
-            at = i - s + 1
-            break
-    if bad:
+        elif prop == "C07" and '"ev":"Instance"' in ln[:30] and '"acc":1' in ln:
+            ev = json.loads(ln)
+            ev["acc"] = 0
+        else:
+            continue
+        s0, _e = core.episode_bounds(lines, i)
         bp = os.path.join(wd, "negctl.ndjson")
-        open(bp, "w").write("\n".join(bad) + "\n")
-        r = core.tlc_trace("Trace_Json", bp, tag=f"neg-{prop}")
-        ok = (not r["accepted"]) and r.get("reject_at") == at
-        res.cov["negative_controls"].append({"malformed_output_rejected_at": r.get("reject_at"), "as_expected": ok})
-        if not ok:
-            raise core.ToolError("negative control not rejected")
+        open(bp, "w").write("\n".join(lines[s0:i] + [json.dumps(ev)]) + "\n")
+        r = core.tlc_trace("Trace_Json", bp, tag=f"neg-{prop}", extra_env=env)
+        ok = (not r["accepted"]) and r.get("reject_at") == i - s0 + 1
+        tried += 1
+        if ok:
+            res.cov["negative_controls"].append({"corrupted_event": ev["ev"], "rejected_at": r.get("reject_at"), "as_expected": True,
+                                                 "view": prop})
+            done = True
+            break
+        if prop == "C06" or tried >= 8:
+            break
+    if tried and not done:
+        raise core.ToolError("negative control not rejected")
     return res
